@@ -50,11 +50,14 @@ func (msg *message) fetch(w *imapserver.FetchResponseWriter, options *imap.Fetch
 		wc := w.WriteBodySection(bs, int64(len(buf)))
 		_, writeErr := wc.Write(buf)
 		closeErr := wc.Close()
-		if writeErr != nil {
-			return writeErr
+		if writeErr == nil {
+			writeErr = closeErr
 		}
-		if closeErr != nil {
-			return closeErr
+		if writeErr != nil {
+			// Release the connection's encoder, otherwise the connection
+			// would block forever when sending the tagged response
+			w.Close()
+			return writeErr
 		}
 	}
 
